@@ -129,11 +129,24 @@ def _is_counter_store(stmt, len_call, defs):
 def check_consumer(ob, prog, fi, oblig):
     """counter-cell-per-production in a closure that consumes the impact lists."""
     fn = fi.node
-    defs = _single_defs(fn)
     site = site_of(prog, fi, fn)
-    loops = [lp for lp in ast.walk(fn) if isinstance(lp, ast.For) and isinstance(lp.target, ast.Tuple)
-             and len(lp.target.elts) == 2 and all(isinstance(x, ast.Name) for x in lp.target.elts)
-             and _mentions_field(lp.iter, IMPACT_FIELD, defs)]
+
+    def impact_loops(node):
+        d = _single_defs(node)
+        return [lp for lp in ast.walk(node) if isinstance(lp, ast.For) and isinstance(lp.target, ast.Tuple)
+                and len(lp.target.elts) == 2 and all(isinstance(x, ast.Name) for x in lp.target.elts)
+                and _mentions_field(lp.iter, IMPACT_FIELD, d)]
+    loops = impact_loops(fn)
+    if not loops:
+        # the propagation loop may have been extracted into a private helper of the class
+        from .flow import helpers_of
+        hs = helpers_of(prog, fi)
+        for c in ast.walk(fn):
+            if isinstance(c, ast.Call):
+                nm = c.func.attr if isinstance(c.func, ast.Attribute) else getattr(c.func, "id", None)
+                h = hs.get(nm) if nm and nm.startswith("_") else None
+                if h is not None and h is not fn:
+                    loops += impact_loops(h)
     if not loops:
         return ob.rep.error("R1", oblig, fi.qname, "counter-cell-per-production",
                             "%s does not iterate the impact entries as `for head, index in impacts[...]` any more; the "
